@@ -696,6 +696,15 @@ def _inst_hook(world, lname, hook):
     return fn
 
 
+def _layer_factory(name, bases, d):
+    class Layer(*bases):
+        pass
+    for k, v in d.items():
+        setattr(Layer, k, v)
+    Layer.__name__ = name
+    return Layer
+
+
 def build_layers(modname):
     """Called by the world's layers module: returns its namespace."""
     world = _load_world()
@@ -711,7 +720,13 @@ def build_layers(modname):
             d = {'__module__': modname}
             for h in hooks:
                 d[h] = _class_hook(world, h)
-            layer = type(name, tuple(bases) or (object,), d)
+            if ls.get('factory'):
+                # layer classes out of a factory: one class statement inside
+                # a function, renamed afterwards - they all share their
+                # __qualname__ and differ in __name__ only
+                layer = _layer_factory(name, tuple(bases) or (object,), d)
+            else:
+                layer = type(name, tuple(bases) or (object,), d)
         else:
             layer = (FalsyInstLayer if ls.get('falsy') else InstLayer)(
                 name, modname, bases)
